@@ -37,12 +37,12 @@ TIERS = {
     'quick': {'shards': 14, 'random': 700, 'timeout': 900, 'min_cases': 450,
               'require_branches': ['reader:Document.paths', 'reader:paths_from_group', 'reader:svg2paths', 'reader:SaxDocument',
                                    'tf:matrix', 'tf:rotate3', 'tf:skewX', 'tf:skewY', 'tf:scale1', 'tf:translate1',
-                                   'shape:rect-rounded', 'shape:rect-radius-clamped', 'shape:line-defaults',
+                                   'shape:rect-rounded', 'shape:rect-radius-clamped', 'shape:rect-one-radius-clamped', 'shape:line-defaults',
                                    'shape:ellipse', 'nesting>=3']},
     'thorough': {'shards': 14, 'random': 60000, 'timeout': 3400, 'min_cases': 40000,
                  'require_branches': ['reader:Document.paths', 'reader:paths_from_group', 'reader:svg2paths',
                                       'reader:SaxDocument', 'tf:matrix', 'tf:rotate3', 'tf:skewX', 'tf:skewY',
-                                      'tf:scale1', 'tf:translate1', 'shape:rect-rounded', 'shape:rect-radius-clamped',
+                                      'tf:scale1', 'tf:translate1', 'shape:rect-rounded', 'shape:rect-radius-clamped', 'shape:rect-one-radius-clamped',
                                       'shape:line-defaults', 'shape:ellipse', 'nesting>=3']},
 }
 CASE_TIMEOUT = 60
@@ -150,7 +150,7 @@ def elem_class(el):
                 rx = float(a.get('rx', a.get('ry', 0)))
                 ry = float(a.get('ry', a.get('rx', 0)))
                 if rx > w / 2 or ry > h / 2:
-                    return 'rect-radius-clamped'
+                    return 'rect-one-radius-clamped' if ('rx' in a) != ('ry' in a) else 'rect-radius-clamped'
             except ValueError:
                 pass
             if ('rx' in a) != ('ry' in a):
@@ -575,7 +575,7 @@ def _transform(rng, lexical=False):
 
 
 def _leaf(rng, idx):
-    k = rng.choice(['rect', 'rect-r', 'rect-rx', 'rect-ry', 'rect-big-r', 'circle', 'ellipse', 'line', 'line-partial',
+    k = rng.choice(['rect', 'rect-r', 'rect-rx', 'rect-ry', 'rect-big-r', 'rect-big-one', 'circle', 'ellipse', 'line', 'line-partial',
                     'polyline', 'polygon', 'polygon-closed', 'path', 'path-arc'])
     x, y = _num(rng, -50, 50), _num(rng, -50, 50)
     w, h = _num(rng, 5, 60), _num(rng, 5, 60)
@@ -593,6 +593,11 @@ def _leaf(rng, idx):
             a['rx'] = r1
         elif k == 'rect-ry':
             a['ry'] = r1
+        elif k == 'rect-big-one':
+            # only one radius given, and larger than half the SHORTER side: the missing one defaults to the given
+            # value first, then each is clamped to its own half side (width != height tells the two orders apart)
+            big = repr(min(float(w), float(h)) * rng.uniform(0.55, 1.5))
+            a[rng.choice(['rx', 'ry'])] = big
         elif k == 'rect-big-r':
             a.update({'rx': repr(float(w) * rng.uniform(0.6, 2)), 'ry': repr(float(h) * rng.uniform(0.3, 2))})
     elif k == 'circle':
